@@ -10,6 +10,7 @@ from collections.abc import Iterator, Sequence
 from dataclasses import dataclass, field
 from typing import ClassVar, Generic, TypeVar
 
+from guppylang_internals import _verif
 from guppylang_internals.ast_util import line_col
 from guppylang_internals.cfg.bb import BB
 from guppylang_internals.cfg.cfg import CFG, BaseCFG
@@ -288,6 +289,8 @@ def check_rows_match(row1: Row[Variable], row2: Row[Variable], bb: BB) -> None:
     types on different control-flow paths.
     """
     map1, map2 = {v.name: v for v in row1}, {v.name: v for v in row2}
+    if _verif.ON:
+        map1 = _verif.sched_dict(map1, "check_rows_match")
     for x in map1.keys() | map2.keys():
         # If block signature lengths don't match but no undefined error was thrown, some
         # variables may be shadowing global variables.
